@@ -297,7 +297,9 @@ def make_case(seed, i, force_end=None):
             continue
         nxt = M.render_tree(state, "/w")
         # files of earlier states that the new state no longer has stay on disk unless they are model files of a live package dir
-        eds = diff_to_edits(r, {p: c for p, c in cur.items() if p in nxt or p.rsplit("/", 1)[0] in {q.rsplit("/", 1)[0] for q in nxt}}, nxt, in_place)
+        # (only model files and manifests are the state's to manage: what else lies in the directories is left alone - removing
+        #  it would produce events of its own in watched directories, after the edit under test)
+        eds = diff_to_edits(r, {p: c for p, c in cur.items() if (p in nxt or p.rsplit("/", 1)[0] in {q.rsplit("/", 1)[0] for q in nxt}) and p.endswith((".yml", ".yaml"))}, nxt, in_place)
         r.shuffle(eds)
         edits += eds
         for ed in eds:
